@@ -10,6 +10,11 @@ import (
 // structural clauses. Shared rules appear under several properties.
 var propRules = map[string][]string{
 	"C05": {"C05.R1", "C05.R1b", "C05.R2", "C05.R3", "C06.R3", "C06.R4", "C06.R5"},
+	"C02": {"C02.R1", "C02.R2", "C02.R3", "C02.R5", "C02.R6", "C11.R4"},
+	"C07": {"C07.R1", "C07.R2", "C07.R3", "C07.R4", "C02.R1", "C05.R3"},
+	"C08": {"C08.R1", "C08.R2", "C08.R3", "C08.R4"},
+	"C10": {"C10.R1"},
+	"C11": {"C11.R2", "C11.R4"},
 	"C06": {"C06.R1", "C06.R2", "C06.R3", "C06.R4", "C06.R5"},
 }
 
@@ -264,4 +269,91 @@ func isErrorType(t types.Type) bool {
 func isErrorSlice(t types.Type) bool {
 	s, ok := t.(*types.Slice)
 	return ok && isErrorType(s.Elem())
+}
+
+// loopExits lists the statements inside loop's body that can leave the loop
+// before it has visited every element: return, goto, break targeting it (or
+// an outer statement), continue targeting an outer loop, panic-like calls are
+// not counted. Function literals are skipped.
+func (fi *FuncInfo) loopExits(loop ast.Stmt) []ast.Node {
+	var body *ast.BlockStmt
+	switch l := loop.(type) {
+	case *ast.ForStmt:
+		body = l.Body
+	case *ast.RangeStmt:
+		body = l.Body
+	default:
+		return nil
+	}
+	var label string
+	if ls, ok := fi.parent[loop].(*ast.LabeledStmt); ok {
+		label = ls.Label.Name
+	}
+	var out []ast.Node
+	var walk func(n ast.Node, breakable int, loops int)
+	walk = func(n ast.Node, breakable, loops int) {
+		ast.Inspect(n, func(m ast.Node) bool {
+			if m == nil || m == n {
+				return true
+			}
+			switch s := m.(type) {
+			case *ast.FuncLit:
+				return false
+			case *ast.ReturnStmt:
+				out = append(out, s)
+			case *ast.BranchStmt:
+				switch s.Tok {
+				case token.GOTO:
+					out = append(out, s)
+				case token.BREAK:
+					if s.Label != nil {
+						// labelled break: leaves this loop if the label is this loop's or an outer statement's
+						if s.Label.Name == label || !fi.labelInside(s.Label.Name, body) {
+							out = append(out, s)
+						}
+					} else if breakable == 0 {
+						out = append(out, s)
+					}
+				case token.CONTINUE:
+					if s.Label != nil && s.Label.Name != label && !fi.labelInside(s.Label.Name, body) {
+						out = append(out, s)
+					}
+				}
+			case *ast.ForStmt:
+				walk(s.Body, breakable+1, loops+1)
+				return false
+			case *ast.RangeStmt:
+				walk(s.Body, breakable+1, loops+1)
+				return false
+			case *ast.SwitchStmt:
+				walk(s.Body, breakable+1, loops)
+				return false
+			case *ast.TypeSwitchStmt:
+				walk(s.Body, breakable+1, loops)
+				return false
+			case *ast.SelectStmt:
+				walk(s.Body, breakable+1, loops)
+				return false
+			}
+			return true
+		})
+	}
+	walk(body, 0, 0)
+	return out
+}
+
+func (fi *FuncInfo) labelInside(name string, body ast.Node) bool {
+	found := false
+	ast.Inspect(body, func(n ast.Node) bool {
+		if ls, ok := n.(*ast.LabeledStmt); ok && ls.Label.Name == name {
+			found = true
+		}
+		return true
+	})
+	return found
+}
+
+// loopComplete reports whether the loop visits every element (no early exit).
+func (fi *FuncInfo) loopComplete(loop ast.Stmt) bool {
+	return len(fi.loopExits(loop)) == 0
 }
